@@ -99,19 +99,6 @@ def isMapOfKinds : Nat → Schemas → Ty → Bool
       | none => false
     | _ => false
 
-/-- the element type makes `strict_unmarshal_field_type` emit a second `partialArray := …` block
-    (an array that is not an array of scalars) -/
-def elemIsNonScalarArray (ss : Schemas) (e : Ty) : Bool :=
-  match resolveRefs ss e with
-  | some (.array ..) => !isArrayOfKinds kindFuel ss e
-  | _ => false
-
-/-- the value type makes the template emit a second `partialMap := …` block -/
-def elemIsNonScalarMap (ss : Schemas) (e : Ty) : Bool :=
-  match resolveRefs ss e with
-  | some (.map ..) => !isMapOfKinds kindFuel ss e
-  | _ => false
-
 /-! ### the struct template -/
 
 def isCrefTy : Ty → Bool
@@ -193,11 +180,10 @@ def sd : Nat → Schemas → Ty → Json → DRes GoVal
           | .arr xs =>
             if t.isRef && t.getMeta.nullable && !xs.isEmpty then
               .unsup "panic: append(*x, …) dereferences the nil pointer of a nullable named array"
-            else if elemIsNonScalarArray ss e && !xs.isEmpty then
-              -- the element block redeclares `partialArray := []json.RawMessage{}` and then reads
-              -- `partialArray[i1]` from that new, empty slice
-              .unsup "panic: index out of range: nested array of non-scalars, inner partialArray shadows the outer"
-            else (mapRes (sd fuel ss e) xs).map sliceOrNil
+            else
+              -- nested levels use their own `partialArray<Depth>` (since /repo commit ce83efb; before,
+              -- the element block redeclared `partialArray` and indexed the new, empty slice: panic)
+              (mapRes (sd fuel ss e) xs).map sliceOrNil
           | .null => .ok .nil
           | _ => .err
       | .map idx e _ =>
@@ -207,11 +193,8 @@ def sd : Nat → Schemas → Ty → Json → DRes GoVal
           | .scalar "string" _ _ _ =>
             match j with
             | .obj kvs =>
-              if elemIsNonScalarMap ss e && !kvs.isEmpty then
-                -- the value block redeclares `partialMap := make(…)` and then decodes
-                -- `partialMap[key1]` of that new, empty map: json.Unmarshal(nil, …) fails, `return err`
-                .err
-              else
+              -- nested levels use their own `partialMap<Depth>` (since /repo commit ce83efb; before, the
+              -- value block redeclared `partialMap` and decoded a nil raw message: always an error)
               (mapRes (fun (kv : String × Json) => (sd fuel ss e kv.2).map fun x => (kv.1, x)) kvs).map
                 fun l => .gomap (l.foldl (fun acc kv => Cog.OMap.rset kv.1 kv.2 acc) [])
             | .null => .ok (.gomap [])
